@@ -312,6 +312,33 @@ def run_purity_case(rng, cls, n, gates_kind):
     if set(a) != set(b) or any(float(a[k]).hex() != float(b[k]).hex() for k in a):
         what = "a deterministic gate set" if gates_kind in ("noise_free", "counting") else "the same numpy seed"
         fails.append(f"repeating the run with {what} gives a different result: {dict(list(a.items())[:3])} vs {dict(list(b.items())[:3])}")
+    if fails:
+        return ops, fails
+    # the simulator object is reusable: it now serves another circuit of the SAME sizes (same gates, same number of measured qubits)
+    # that reads out other qubits / the same qubits in another order - the result is that of a new simulator on that circuit
+    body = [op for op in ops if op[0] != "measure"]
+    meas = [op for op in ops if op[0] == "measure"]
+    others = [q for q in labels if q not in [m[1] for m in meas]]
+    new_q = [m[1] for m in meas]
+    if len(new_q) > 1:
+        new_q = new_q[1:] + new_q[:1]
+    if others:
+        new_q[0] = rng.choice(others)
+    if new_q != [m[1] for m in meas]:
+        ops2 = body + [["measure", q, m[2]] for q, m in zip(new_q, meas)]
+        qc2 = W.build_qiskit(ops2, nlabels, ncl)
+        out2 = []
+        for s2 in (sim, S.MrAndersonSimulator(gates=gates, CircuitClass=W.circuit_class(cls), parallel=False)):
+            np.random.seed(12345)
+            try:
+                with contextlib.redirect_stdout(io.StringIO()):
+                    out2.append(s2.run(t_qiskit_circ=qc2, qubits_layout=layout, psi0=psi0, shots=2, device_param=dp, nqubit=n))
+            except Exception as e:              # noqa
+                return ops2, [f"the used simulator object raised {type(e).__name__} on a second circuit of the same sizes: {str(e)[:100]}"]
+        c, d = out2
+        if set(c) != set(d) or any(abs(float(c[k]) - float(d[k])) > 1e-12 for k in c):
+            return ops2, [f"the simulator object is not reusable: after a run it serves a second circuit of the same sizes measuring {new_q} "
+                          f"instead of {[m[1] for m in meas]} and returns {dict(list(c.items())[:4])}; a new simulator returns {dict(list(d.items())[:4])}"]
     return ops, fails
 
 
